@@ -11,6 +11,8 @@ CLAIMED["C03"] = ("DESIGN.md#c03", "Lean theorems: add of fixed-length units = f
          "Lean 4 proof over zone-table + add_duration model, differential correspondence run")
 CLAIMED["C01"] = ("DESIGN.md#c01", "Lean theorems for every well-formed zone table: conversion preserves the instant, fields/offset are the table's rendering, A->B->C = A->C, int_timestamp inverts from_timestamp, instance() keeps the instant; correspondence of in_tz/in_timezone/astimezone/convert/from_timestamp/instance (5 tzinfo kinds) against the model around transitions of every zone, both backends; oracle = integer instants from the tz table",
          "Lean 4 proof over zone-table model + differential correspondence run")
+CLAIMED["C09"] = ("DESIGN.md#c09", "Lean theorems over the exact-microsecond model of Duration.__new__/components/in_*()/AbsoluteDuration (all integer argument tuples, unbounded); correspondence model<->code: exact model on the float-exact range, float-faithful model beyond it; oracle = native timedelta + integer split",
+         "Lean 4 proof of the integer model + hand model tied by differential run (float bridge stated as assumption)")
 NA = {}
 def main():
     props = [json.loads(l) for l in open(os.path.join(ROOT, "properties.jsonl"))]
